@@ -22,7 +22,9 @@ The two hello messages (`clientHelloMsg`, `serverHelloMsg`; not canonical: unkno
 ones may repeat, the header is ignored) have `unmarshalX_total_bounds` (`BoundedClientHello` /
 `BoundedServerHello`) and `unmarshalX_marshalX` for every value in `WFClientHello` / `WFServerHello`, through
 all ten / six extensions the code writes; an exact characterisation of the accepted byte strings is not given
-for them.
+for them as a whole (for the server_name and status_request extensions of a ClientHello, whose inner length fields
+are checked to the last byte since the repair of `clientHelloMsg.unmarshal`, it is: Props.C15Strict,
+`chExtension_sni_iff`, `chExtension_ocsp_iff`).
 -/
 import Gmsm.Model.TLSMessages
 namespace Props.C15Codec
@@ -1332,8 +1334,9 @@ theorem take_le (d : Bytes) (k : Nat) : (d.take k).length ≤ d.length := by
 theorem drop_le (d : Bytes) (k : Nat) : (d.drop k).length ≤ d.length := by
   rw [List.length_drop]; omega
 
-theorem sniLoop_bound (fuel : Nat) (d x : Bytes) (h : sniLoop fuel d = some (some x)) : x.length ≤ d.length := by
-  induction fuel generalizing d with
+theorem sniLoop_bound (fuel : Nat) (d : Bytes) (acc : Option Bytes) (x : Bytes)
+    (h : sniLoop fuel d acc = some (some x)) : x.length ≤ d.length ∨ acc = some x := by
+  induction fuel generalizing d acc with
   | zero => simp [sniLoop] at h
   | succ fuel ih =>
     unfold sniLoop at h
@@ -1344,15 +1347,20 @@ theorem sniLoop_bound (fuel : Nat) (d x : Bytes) (h : sniLoop fuel d = some (som
         split at h
         · simp at h
         · split at h
-          · cases h
-            have := take_le (List.drop 3 d) (get16 (d.getD 1 0) (d.getD 2 0))
+          · split at h
+            · simp at h
+            · have := take_le (List.drop 3 d) (get16 (d.getD 1 0) (d.getD 2 0))
+              have := drop_le (List.drop 3 d) (get16 (d.getD 1 0) (d.getD 2 0))
+              have := drop_le d 3
+              rcases ih _ _ h with e | e
+              · left; omega
+              · left; cases e; omega
+          · have := drop_le (List.drop 3 d) (get16 (d.getD 1 0) (d.getD 2 0))
             have := drop_le d 3
-            omega
-          · have := ih _ h
-            have := drop_le (List.drop 3 d) (get16 (d.getD 1 0) (d.getD 2 0))
-            have := drop_le d 3
-            omega
-    · simp at h
+            rcases ih _ _ h with e | e
+            · left; omega
+            · right; exact e
+    · right; cases h; rfl
 
 theorem protoLoop_bound (fuel : Nat) (d : Bytes) (l : List Bytes) (h : protoLoop fuel d = some l) :
     ∀ p ∈ l, p.length ≤ d.length := by
@@ -1444,7 +1452,7 @@ theorem chExtension_bound (n : Nat) (m m2 : ClientHelloMsg) (ext length : Nat) (
         · cases h; exact ⟨b1, b2, b3, b4, b5, b6, b7, b8, b9, b10, b11⟩
         · rename_i x hs
           cases h
-          have := sniLoop_bound _ _ _ hs
+          have := (sniLoop_bound _ _ _ _ hs).resolve_right (by simp)
           have := drop_le (List.take length data) 2
           have := take_le data length
           exact ⟨b1, b2, b3, by show x.length ≤ n; omega, b5, b6, b7, b8, b9, b10, b11⟩
@@ -1457,7 +1465,10 @@ theorem chExtension_bound (n : Nat) (m m2 : ClientHelloMsg) (ext length : Nat) (
   rw [if_neg e1] at h
   by_cases e2 : ext = 5
   · rw [if_pos e2] at h
-    cases h; exact ⟨b1, b2, b3, b4, b5, b6, b7, b8, b9, b10, b11⟩
+    dsimp only at h
+    split at h
+    · simp at h
+    · cases h; exact ⟨b1, b2, b3, b4, b5, b6, b7, b8, b9, b10, b11⟩
   rw [if_neg e2] at h
   by_cases e3 : ext = 10
   · rw [if_pos e3] at h
@@ -2346,15 +2357,18 @@ theorem chExt_npn (m : ClientHelloMsg) (rest : Bytes) :
   unfold chExtension
   rw [if_neg (by decide), if_pos rfl, if_neg (by omega)]
 
-theorem sniLoop_host (f : Nat) (name rest : Bytes) (h : name.length < 65536) :
-    sniLoop (f + 1) ([0] ++ (put16 name.length ++ (name ++ rest))) = some (some name) := by
+theorem sniLoop_host (f : Nat) (name : Bytes) (h0 : 0 < name.length) (h : name.length < 65536) :
+    sniLoop (f + 2) ([0] ++ (put16 name.length ++ (name ++ []))) none = some (some name) := by
   rw [sniLoop]
   simp only [put16]
   bsimp
   rw [get16_put16 _ h, if_pos (by omega), if_neg (by omega), if_neg (by simp only [List.length_append]; omega),
-    if_pos trivial, List.take_left]
+    if_pos trivial, if_neg (by simp only [Option.isSome_none, Bool.false_eq_true, or_false]; omega), List.take_left,
+    List.drop_left]
+  rw [sniLoop]
+  simp
 
-theorem chExt_sni (m : ClientHelloMsg) (name rest : Bytes) (h : name.length + 5 < 65536) :
+theorem chExt_sni (m : ClientHelloMsg) (name rest : Bytes) (h0 : 0 < name.length) (h : name.length + 5 < 65536) :
     chExtension m 0 (name.length + 5) (put16 (name.length + 3) ++ ([0] ++ (put16 name.length ++ (name ++ rest)))) =
       some { m with serverName := name } := by
   have e : put16 (name.length + 3) ++ ([0] ++ (put16 name.length ++ (name ++ rest))) =
@@ -2369,7 +2383,7 @@ theorem chExt_sni (m : ClientHelloMsg) (name rest : Bytes) (h : name.length + 5 
   simp only [put16]
   bsimp
   rw [get16_put16 _ (by omega), if_neg (by omega), if_neg (by simp only [List.length_append, List.length_nil]; omega)]
-  have := sniLoop_host (name.length + 0 + 1 + 1 + 1) name [] (by omega)
+  have := sniLoop_host (name.length + 0 + 1 + 1) name h0 (by omega)
   simp only [put16, List.cons_append, List.nil_append] at this
   simp only [List.length_append, List.length_nil, this]
 
@@ -2377,6 +2391,11 @@ theorem chExt_ocsp (m : ClientHelloMsg) (rest : Bytes) :
     chExtension m 5 5 ([1, 0, 0, 0, 0] ++ rest) = some { m with ocspStapling := true } := by
   unfold chExtension
   rw [if_neg (by decide), if_neg (by decide), if_pos rfl]
+  have e : ocspRequestOk ((List.take 5 ([1, 0, 0, 0, 0] ++ rest : Bytes)).drop 1) = true := by
+    rw [show (5 : Nat) = ([1, 0, 0, 0, 0] : Bytes).length from rfl, List.take_left]
+    decide
+  dsimp only
+  rw [e]
   rfl
 
 theorem chExt_curves (m : ClientHelloMsg) (curves : List Nat) (rest : Bytes) (hx : ∀ x ∈ curves, x < 65536)
@@ -2574,7 +2593,7 @@ theorem chExtLoop_chExtensions (v : ClientHelloMsg) (h : WFClientHello v) :
       omega
     rw [← e2, List.append_assoc, List.append_assoc]
     refine ch_step_ext 0 _ _ _ _ (by decide) (by rw [e2]; omega) ?_
-    rw [List.append_assoc, List.append_assoc, List.append_assoc, e2, chExt_sni _ _ _ hb]
+    rw [List.append_assoc, List.append_assoc, List.append_assoc, e2, chExt_sni _ _ _ c hb]
     obtain ⟨⟩ := v
     simp_all [chBase, chM1, chM2, chM3, chM4, chM5, chM6, chM7, chM8, chM9]
   · intro c
